@@ -6,14 +6,21 @@ bit-stream parses of the real code)."""
 import json, random, concurrent.futures
 import vlib
 
-BLANK = dict(op="", name="", hint="", cs="", text=[], bytes=[], stream=[], eci=-1, lo=0, n=0, enc=[], rep=0, dec=[], decok=0,
+BLANK = dict(op="", name="", hint="", gs1=0, hmut=0, cs="", text=[], bytes=[], stream=[], eci=-1, lo=0, n=0, enc=[], rep=0, dec=[], decok=0,
              found=0, oname="", oval=0, hits=[], nnone=0, nerr=0, werr=0, rerr=0, otext=[], head=[], segs=[], guess="",
              err=0, panic=0, msg="")
 ALPHABET = "{65, 195, 227, 240, 128, 149, 169, 254}"
 ALPHABET_THOROUGH = "{65, 195, 227, 240, 128, 149, 169, 254, 255, 237}"
 
 
+_N = [0]
+
+
 def ev(op, **kw):
+    if op == "qr" and kw.get("hint"):        # every third hinted write also carries a GS1_FORMAT hint that says "no"
+        _N[0] += 1
+        if _N[0] % 3 == 0:
+            kw.setdefault("gs1", 1 + (_N[0] // 3) % 2)
     return dict(BLANK, op=op, **kw)
 
 
